@@ -657,6 +657,10 @@ partial def loop (profile : Profile) (h : IO.FS.Stream) (out : IO.FS.Stream) (st
               (parseList? xs).bind (·.mapM String.toNat?) with
         | some i, some a, some b => some (extendRefStep st.sys i a b)
         | _, _, _ => none
+      -- `Visitor::expecting`: the text serde puts after "expected" when the input has the wrong type
+      | [reg, "serde_wrong"] => (parseReg? reg).map fun (isMap, i) =>
+          customStep st.sys (if isMap then [i] else []) (if isMap then [] else [i]) fun sys0 =>
+            .ok (.str ("invalid type: boolean `true`, expected " ++ (if isMap then "a Map" else "a Set"))) sys0
       | [reg, "defaults"] => (parseReg? reg).map fun (isMap, i) => defaultsStep st.env st.sys isMap i
       | _ => none
     if let some (sys', o) := customOut then
